@@ -14,7 +14,7 @@ EVIDENCE = dict(
 CASE_DEADLINE = dict(quick=240.0, thorough=900.0)
 
 TRAILING = [(), (1,), (3,), (2, 3), (3, 1), (2, 1, 3), (1, 2, 2)]
-OPS = ["add1", "eq3", "reshape", "index0", "sum", "to_uint8", "mul2", "flip", "t_contig", "clone"]
+OPS = ["add1", "eq3", "reshape", "index0", "sum", "to_uint8", "mul2", "flip", "t_contig", "clone", "slice0", "slice_last", "narrow0", "narrow_neg_first", "narrow_neg_last", "select_neg", "index_neg", "step_slice", "unsqueeze", "expand", "cat_self", "ne0", "gather_rows"]
 
 
 def cases(tier, seed):
@@ -65,6 +65,32 @@ def _apply_op(name, t):
         return t.transpose(0, -1).contiguous()
     if name == "clone":
         return t.clone()
+    if name == "slice0":
+        return t[1:]
+    if name == "slice_last":
+        return t[..., :1]
+    if name == "narrow0":
+        return t.narrow(0, 1, t.shape[0] - 1)
+    if name == "narrow_neg_first":
+        return t.narrow(-t.ndim, 0, t.shape[0] - 1)
+    if name == "narrow_neg_last":
+        return t.narrow(-1, 0, 1)
+    if name == "select_neg":
+        return t.select(-t.ndim, t.shape[0] - 1)
+    if name == "index_neg":
+        return t[-1]
+    if name == "step_slice":
+        return t[::2]
+    if name == "unsqueeze":
+        return t.unsqueeze(0)
+    if name == "expand":
+        return t.unsqueeze(0).expand(2, *t.shape)
+    if name == "cat_self":
+        return torch.cat([t, t], 0)
+    if name == "ne0":
+        return t != 0
+    if name == "gather_rows":
+        return torch.index_select(t, 0, torch.tensor([t.shape[0] - 1, 0]))
     raise KeyError(name)
 
 
@@ -161,13 +187,23 @@ def run_case(case, res):
                 for i in range(vpi):
                     oracle.append(np.vectorize(lambda z: z3.LShR(z, bits * i) & (2**bits - 1), otypes=[object])(Xz))
                 oracle = np.concatenate([o.reshape((n0, *shape[1:])) for o in oracle], axis=0)
+                from symt import terms as tm_
+
                 for name, o in outs.items():
+                    if not tm_.support(list(o.reshape(-1))):
+                        # the kernel did not go through ATen (e.g. raw pointer loops in the extension): its result carries no
+                        # terms. The universal claim is then NOT decided; a concrete differential run over all 256 byte values
+                        # still reports real disagreements
+                        res.query("kernel-agreement", "BIT", "unknown", 0.0, sub=f"{name} {shape} {lname}: kernel not observable at the ATen boundary (taint lost)")
+                        allb = layout(torch.arange(256, dtype=torch.uint8).repeat(-(-t.numel() // 256))[: t.numel()].reshape(shape).contiguous()) if lname == "contiguous" else layout(torch.arange(256, dtype=torch.uint8).repeat(-(-t.numel() // 256))[: t.numel()].reshape(shape))
+                        res.candidate(f"kernel-agreement:{name}:{lname}", "concrete", dict(kind="kernels", bits=bits, route=name, layout=lname, t=api.enc_tensor(allb.contiguous())), exact=False, cap=2)
+                        continue
                     neq = [b.tr(a) != e for a, e in zip(o.reshape(-1), oracle.reshape(-1))]
                     v, secs, model = api.solve([z3.Or(*neq)], 60)
                     res.query("kernel-agreement", "BIT", v, secs, sub=f"{name} {shape} {lname}", nvars=X.size)
                     if v == "sat":
                         vals = api.model_values(b, model, X)
-                        res.candidate("kernel-agreement", "BIT", dict(kind="kernels", bits=bits, route=name, t=api.enc_tensor(api.tensor_from_values(vals, shape, torch.uint8))), exact=True)
+                        res.candidate("kernel-agreement", "BIT", dict(kind="kernels", bits=bits, route=name, layout=lname, t=api.enc_tensor(api.tensor_from_values(vals, shape, torch.uint8))), exact=True)
         return
 
     if case["kind"] == "ops":
@@ -235,6 +271,8 @@ def replay(rec):
 
         from symt import cppext
 
+        if inp.get("layout", "contiguous") != "contiguous":
+            t = dict(_layouts(tuple(t.shape)))[inp["layout"]](t)
         vpi = 8 // bits
         oracle = torch.cat([(t >> (bits * i)) & (2**bits - 1) for i in range(vpi)])
         outs = {"py": torch.ops.quanto_py.unpack(t, bits)}
